@@ -139,3 +139,28 @@ def pointer_walk(eng, ps):
                 if step and ('*' in (eng.types.get(k) or '') or '*' in (eng.types.get(lmap[k][0]) or '')):
                     return fmt(k)
     return None
+
+
+def unify_progress(ps, p, eng=None, want_k=False):
+    """{havoc value: term} that expresses every loop variable of p's innermost loop which each iteration moves by +1 or
+    -1 through ONE of them: they all count the iterations (value = start +- K, by induction), so a walking pointer, a
+    remaining count and an index are the same quantity to whoever reads the path afterwards"""
+    if not p.loops:
+        return {} if not want_k else ({}, None)
+    node, lmap = p.loops[-1]
+    st = loop_steps(ps, node)
+    cand = [(k, st[k]) for k in sorted(lmap, key=lambda k_: repr(k_)) if st.get(k) in (1, -1) and lmap[k][1] is not None and lmap[k][0][0] == 'h']
+    if len(cand) < 2:
+        return {} if not want_k else ({}, None)
+    # prefer an index that starts at a constant as the one everything is expressed in
+    def is_ptr(k_):
+        return eng is not None and '*' in (eng.types.get(lmap[k_][0]) or eng.types.get(k_) or '')
+    cand.sort(key=lambda ks: (0 if _strip_cast(lmap[ks[0]][1])[0] == 'c' and ks[1] == 1 else (2 if is_ptr(ks[0]) else 1), repr(ks[0])))
+    k0, s0 = cand[0]
+    h0, pre0 = lmap[k0]
+    K = ('-', h0, pre0) if s0 == 1 else ('-', pre0, h0)
+    sub = {}
+    for k, s_ in cand[1:]:
+        h, pre = lmap[k]
+        sub[h] = ('+', pre, K) if s_ == 1 else ('-', pre, K)
+    return (sub, K) if want_k else sub
